@@ -249,6 +249,7 @@ class RelDjango:
             model.objects.all().delete()
         m.Post.authors.through.objects.all().delete()
         m.Org.objects.bulk_create([m.Org(id=r["id"], name=_col(r["name"]), k=_col(r["k"])) for r in db["Org"]])
+        leads = [(r["id"], _col(r["lead"])) for r in db["Org"]]        # set once the authors exist (circular keys)
         m.PostInfo.objects.bulk_create([m.PostInfo(id=r["id"], tag=_col(r["tag"])) for r in db["PostInfo"]])
         m.AuthorInfo.objects.bulk_create([m.AuthorInfo(id=r["id"], tag=_col(r["tag"])) for r in db["AuthorInfo"]])
         m.Author.objects.bulk_create([m.Author(id=r["id"], name=_col(r["name"]), age=_col(r["age"]), rank=_col(r["rank"]),
@@ -257,6 +258,9 @@ class RelDjango:
                                            info_id=_col(r["info"])) for r in db["Post"]])
         m.Comment.objects.bulk_create([m.Comment(id=r["id"], text=_col(r["text"]), k=_col(r["k"]), post_id=_col(r["post"]))
                                        for r in db["Comment"]])
+        for oid, lead in leads:
+            if lead is not None:
+                m.Org.objects.filter(id=oid).update(lead_id=lead)
         thr = m.Post.authors.through
         thr.objects.bulk_create([thr(post_id=p, author_id=a) for p, a in db["editors"]])
 
@@ -284,6 +288,8 @@ class RelSa:
             name = sa.Column(sa.String)
             k = sa.Column(sa.Integer)
             authors = relationship("Author", back_populates="org", foreign_keys="Author.org_id")
+            lead_id = sa.Column(sa.Integer, sa.ForeignKey("author.id", use_alter=True, name="fk_org_lead"))    # back to Author
+            lead = relationship("Author", foreign_keys=[lead_id], post_update=True)
 
         class PostInfo(Base):
             __tablename__ = "post_info"
@@ -351,7 +357,7 @@ class RelSa:
             s.execute(sa.delete(M[name].__table__))
         s.execute(sa.insert(M["PostInfo"].__table__), [dict(id=r["id"], tag=_col(r["tag"])) for r in db["PostInfo"]])
         s.execute(sa.insert(M["AuthorInfo"].__table__), [dict(id=r["id"], tag=_col(r["tag"])) for r in db["AuthorInfo"]])
-        s.execute(sa.insert(M["Org"].__table__), [dict(id=r["id"], name=_col(r["name"]), k=_col(r["k"])) for r in db["Org"]])
+        s.execute(sa.insert(M["Org"].__table__), [dict(id=r["id"], name=_col(r["name"]), k=_col(r["k"]), lead_id=_col(r["lead"])) for r in db["Org"]])
         s.execute(sa.insert(M["Author"].__table__), [dict(id=r["id"], name=_col(r["name"]), age=_col(r["age"]), rank=_col(r["rank"]),
                                                           org_id=_col(r["org"]), info_id=_col(r["info"]), home_id=_col(r["home"])) for r in db["Author"]])
         s.execute(sa.insert(M["Post"].__table__), [dict(id=r["id"], title=_col(r["title"]), n=_col(r["n"]), author_id=_col(r["author"]),
